@@ -83,6 +83,42 @@ def _subst(chunks, i, payload):
     return codec.build_chunks(new)
 
 
+# ----------------------------------------------------------------------------- reference-encoded nested files
+def reference_nested_files(max_depth):
+    """Files with MetaModules nested to `depth`, written by the INDEPENDENT encoder (a file written by the
+    library under test could already be wrong-but-stable, which would hide a re-save defect)."""
+    from rvref import absdev
+
+    out = []
+    for inner_type, devs, ctl_index in (("Amplifier", [{"k": "ctl", "n": "balance", "v": -100}], 1),
+                                        ("MultiSynth", [{"k": "ctl", "n": "transpose", "v": 5}], 0),
+                                        ("Generator", [], 0)):
+        proj = absdev.make_project(name="leaf", modules=[absdev.make_output(), absdev.build_module(inner_type, devs)])
+        for depth in range(1, max_depth + 1):
+            for ctx in ("project", "synth"):
+                mm = absdev.build_module("MetaModule", [], in_project=(ctx == "project"))
+                mm["payload"]["project"] = proj
+                mm["options"]["user_defined_controllers"] = 2
+                mm["payload"]["mappings"][0] = [1, ctl_index]
+                mm["controllers"] = mm["controllers"][:5] + [["user_defined_1", 20], ["user_defined_2", 0]]
+                mm["cmid"] = [[0, 0, 0, 0] for _ in mm["controllers"]]
+                mm["cvals_raw"] = None
+                mm["payload"]["labels"] = {0: f"d{depth}"}
+                mm = absdev.finish_module(mm)
+                if ctx == "synth":
+                    out.append((f"ref-nested:{inner_type}:depth{depth}:synth", codec.encode(absdev.make_synth(mm))))
+                else:
+                    amp = absdev.build_module("Amplifier", [])
+                    amp["in_links"], amp["in_link_slots"] = [1], [0]
+                    outm = absdev.make_output()
+                    outm["in_links"], outm["in_link_slots"] = [2], [0]
+                    nxt = absdev.make_project(name=f"level{depth}", modules=[outm, mm, amp])
+                    out.append((f"ref-nested:{inner_type}:depth{depth}:project", codec.encode(nxt)))
+                    keep = nxt
+            proj = keep
+    return out
+
+
 # ----------------------------------------------------------------------------- oracle
 def chain(x, cycles, key):
     """Returns (status, violations, digest)."""
@@ -149,6 +185,22 @@ def describe_difference(a, b):
 
 def run_case(case):
     cycles = case.get("cycles", 3)
+    if "refnested" in case:
+        data = dict(reference_nested_files(case["max_depth"]))[case["refnested"]]
+        label = case["refnested"]
+        _st, vs, _h = chain(data, cycles, {"file": label.rsplit(":", 2)[0], "depth": label.split(":")[2]})
+        for v in vs:
+            v["case"] = case
+        return vs
+    if "objects" in case:
+        from checks import c15, c16
+
+        mod = c15 if case["objects"] == "c15" else c16
+        data = C.save(mod.build_object(dict(case["case"], ctx=case["ctx"])))
+        _st, vs, _h = chain(data, cycles, {"objects": case["objects"], "what": case["case"]["label"], "ctx": case["ctx"]})
+        for v in vs:
+            v["case"] = case
+        return vs
     if "fixture" in case:
         data = open(os.path.join(treeenv.FIXTURES, case["fixture"]), "rb").read()
         if case.get("mutant"):
@@ -200,6 +252,45 @@ def _task(t):
             if len(r["violations"]) < 40:
                 r["violations"] += vs
         r["sample"] = {"fixture": rel, "mutant": items[-1][0] if items else None}
+    elif kind == "refnested":
+        _k, cycles, max_depth = t
+        for label, data in reference_nested_files(max_depth):
+            st, vs, h = chain(data, cycles, {"file": label.rsplit(":", 2)[0], "depth": label.split(":")[2]})
+            for v in vs:
+                v["case"] = {"refnested": label, "max_depth": max_depth, "cycles": cycles}
+            r["evals"] += 1
+            C.count(r, st.split(":")[0])
+            C.count(r, "refnested-" + st.split(":")[0])
+            if h:
+                r["digests"].add(h)
+            r["violations"] += vs
+        r["sample"] = {"refnested": "ref-nested:Amplifier:depth2:project"}
+    elif kind == "objects":
+        _k, which, cycles, lo, hi = t
+        from checks import c15, c16
+
+        mod = c15 if which == "c15" else c16
+
+        class _Ctx:
+            thorough = False
+            seed = 0
+        for case in mod.object_cases(_Ctx)[lo:hi]:
+            for cx in ("synth", "project"):
+                try:
+                    data = C.save(mod.build_object(dict(case, ctx=cx)))
+                except Exception:
+                    C.count(r, "not-built")
+                    continue
+                st, vs, h = chain(data, cycles, {"objects": which, "what": case["label"], "ctx": cx})
+                for v in vs:
+                    v["case"] = {"objects": which, "case": case, "ctx": cx, "cycles": cycles}
+                r["evals"] += 1
+                C.count(r, st.split(":")[0])
+                if h:
+                    r["digests"].add(h)
+                if len(r["violations"]) < 20:
+                    r["violations"] += vs
+        r["sample"] = {"objects": which, "index": lo}
     else:
         _k, tkey, seed, ctxs, cycles, lo, hi = t
         import rv.api as rv
@@ -249,6 +340,16 @@ def run(ctx):
         n = len(deviate.module_devs(k, ctx.seed, spikes="few", opt8="few")) + 1
         for lo in range(0, n, 60):
             tasks.append(("gen", k, ctx.seed, ("synth", "project") if ctx.thorough else ("synth",), cycles, lo, min(n, lo + 60)))
+    tasks.append(("refnested", cycles, 5 if ctx.thorough else 3))
+    from checks import c15, c16
+
+    class _Q:
+        thorough = False
+        seed = 0
+    for which, mod in (("c15", c15), ("c16", c16)):
+        n = len(mod.object_cases(_Q))
+        for lo in range(0, n, 40):
+            tasks.append(("objects", which, cycles, lo, min(n, lo + 40)))
     from rvmc.runner import rotate
 
     agg = C.Agg()
